@@ -333,7 +333,34 @@ def lazy_iter(x):
         yield from list(x)
 
 
-STD_MODULES = ("functools", "operator", "itertools", "contextlib", "struct", "dataclasses", "typing", "enum", "collections")
+STD_MODULES = ("functools", "operator", "itertools", "contextlib", "struct", "dataclasses", "typing", "enum", "collections", "weakref")
+
+
+class WeakRef(Native):
+    """weakref.ref / weakref.WeakMethod on the model: calling it gives the referent while something else still holds it,
+    None afterwards.  Instances of repository classes, bound methods of them and model objects are held by their owners;
+    a callable that a model marks `strongly_held = False` (an inline lambda, a partial built in the call, a closure of a
+    helper that has returned) is collected as soon as the registration returns - CPython's reference counting."""
+
+    def __init__(self, referent):
+        self.referent = referent
+        super().__init__(lambda a, k: self.get(), "weakref")
+
+    def alive(self):
+        return getattr(self.referent, "strongly_held", True)
+
+    def get(self):
+        return self.referent if self.alive() else None
+
+    def __eq__(self, o):
+        if isinstance(o, WeakRef):
+            if self.alive() and o.alive():
+                return self.referent == o.referent
+            return self is o
+        return False
+
+    def __hash__(self):
+        return hash(("weakref", id(self.referent)))
 
 
 def std_call(interp, name, args, kwargs, node=None):
@@ -420,6 +447,12 @@ def std_call(interp, name, args, kwargs, node=None):
         return Opaque("field")
     if name == "enum.auto":
         return Opaque("auto")
+    if name in ("weakref.ref", "weakref.WeakMethod", "weakref.proxy"):
+        if not args:
+            raise PyRaise("TypeError: weakref needs a referent")
+        if name == "weakref.proxy":
+            return args[0]
+        return WeakRef(args[0])
     if name == "collections.deque":
         import collections as _c
         it_ = list(lazy_iter(args[0])) if args and args[0] is not None else []
